@@ -106,7 +106,7 @@ CLAIMS = {
             "(amounts 1..=63) for ALL contents at slice lengths 0..=4 (thorough 6); mul_nx1/addmul_nx1/submul_nx1 "
             "(lengths 0..=2, thorough 4), addmul with independent lengths (acc 0..=3, a,b 0..=2; thorough acc 4, a,b 3) "
             "and addmul_n (0..=2, thorough 5) for ALL contents under the uninterpreted-multiply abstraction, addmul also on the exact "
-            "unit-limb sub-domain (one operand's limbs 0 or 1) at (acc 2, a 2, b 1) and, thorough, (3, 2, 2), per operand order; the real "
+            "unit-limb sub-domain (one operand's limbs 0 or 1) at (acc 2, a 2, b 1) and (3, 2, 2) (thorough: (4, 2, 2), (3, 3, 2)), per operand order; the real "
             "DoubleWord bodies through mul_nx1/addmul_nx1/submul_nx1 on ALL contents (lengths 1,2) relative to Rust's `*`.",
             "Outside: lengths above those listed (property asks 0..=10); shift amount 0 (debug-panics in `>> 64`: "
             "outside the functions' evident precondition, see DESIGN 7)."),
